@@ -158,9 +158,7 @@ class RoundsWorld:
         if k == 0:
             return False
         r = self.rounds[k - 1]
-        if not r.challenges or sha1(r.challenges[0]).digest() in self.chal_of and id(r.challenges) == self.known_list[k - 1]:
-            return False
-        if id(r.challenges) == self.known_list[k - 1]:
+        if not r.challenges or id(r.challenges) == self.known_list[k - 1]:
             return False
         self.known_list[k - 1] = id(r.challenges)
         self.gen[k - 1] += 1
@@ -193,7 +191,7 @@ class RoundsWorld:
             slot["k"] = len(self.rounds)
             self.emit("V")
         else:
-            self.emit("W")
+            raise MachineryError("verify_attestation_values registered no new proving cache")
         self._classify()
 
     def inflight(self, mid=None):
@@ -278,7 +276,6 @@ class RoundsWorld:
         for ov in (self.P, self.V):
             try:
                 self.loop.call(ov.request_cache.clear)
-                self.loop.run_until_complete(ov.unload()) if False else None
                 ov.database.close()
             except Exception:  # noqa: BLE001
                 pass
@@ -372,21 +369,9 @@ def fam_lossy(w):
     w.pump("random")
 
 
-def fam_again(w):
-    """verify_attestation_values is called again while the first verification is still running"""
-    rng = w.rng
-    w.verify()
-    w.transfer()
-    for f in w.inflight(3)[:rng.randrange(3, 11)]:
-        w.deliver(f)
-    for f in w.inflight(4)[:rng.randrange(0, 3)]:
-        w.deliver(f)
-    w.verify()
-    w.transfer()
-    w.pump("fifo" if rng.random() < 0.5 else "random")
-
-
-FAMILIES = {"prompt": fam_prompt, "trickle": fam_trickle, "lossy": fam_lossy, "again": fam_again}
+# (a second verify_attestation_values while a round is registered is refused by the cache constructor - RuntimeError
+# "number already in use" - so there is no family for it)
+FAMILIES = {"prompt": fam_prompt, "trickle": fam_trickle, "lossy": fam_lossy}
 
 
 def record(seed, family, fmt, params, value, others, hash_bits):
